@@ -43,6 +43,27 @@ func enumerated() []Case {
 		add(new(big.Int).Sub(p, one))
 		add(p)
 	}
+	// Beyond the table NumDigits estimates the digit count from the bit length with a
+	// floating-point log2(10). The estimate is most fragile where digits*log2(10) is
+	// closest to an integer: the convergents and semiconvergents of log10(2) (and small
+	// multiples of them). 10^k-1, 10^k and 10^k+1 are probed at each such k.
+	hard := []int64{146, 205, 351, 497, 643, 789, 1432, 2075, 2718, 3361, 4004, 4647, 8651, 12655, 21306, 33961, 55267, 76573, 97879}
+	seen := map[int64]bool{}
+	for _, h := range hard {
+		for m := int64(1); m <= 3; m++ {
+			for _, dk := range []int64{-1, 0, 1} {
+				k := h*m + dk
+				if k > 100000 || seen[k] {
+					continue
+				}
+				seen[k] = true
+				p := ref.Pow10(k)
+				add(new(big.Int).Sub(p, one))
+				add(p)
+				add(new(big.Int).Add(p, one))
+			}
+		}
+	}
 	return out
 }
 
